@@ -42,7 +42,22 @@ ServersLoaded(line) ==
       (s \in DOMAIN line.prestore.placement /\ DOMAIN line.prestore.placement[s].apps # {})
         => s \in DOMAIN line.loaded.servers
 
-Restarted(line) == LET pre == CanonStore(line.prestore) ld == CanonModel(line.loaded) IN
+(* the loaded model with the traits as DECLARED (manifests + allocation document *)
+(* for the instances, the registration a new master reads for the servers): a    *)
+(* trait table built in another order must not make a recorded placement look    *)
+(* unhealthy                                                                     *)
+DeclTraits(line, m) ==
+  IF "decl_traits" \notin DOMAIN line THEN m
+  ELSE [m EXCEPT
+          !.apps = [a \in DOMAIN m.apps |->
+                      IF a \in DOMAIN line.decl_traits.apps
+                      THEN [m.apps[a] EXCEPT !.traits = SetOf(line.decl_traits.apps[a])] ELSE m.apps[a]],
+          !.servers = [s \in DOMAIN m.servers |->
+                      IF s \in DOMAIN line.decl_traits.servers
+                      THEN [m.servers[s] EXCEPT !.traits = SetOf(line.decl_traits.servers[s])]
+                      ELSE m.servers[s]]]
+
+Restarted(line) == LET pre == CanonStore(line.prestore) ld == DeclTraits(line, CanonModel(line.loaded)) IN
   F("C11.kept", C11kept(pre, ld) /\ ServersLoaded(line)) \cup F("C11.identity", C11identity(pre, ld))
   \cup F("C11.expiry", C11expiry(pre, ld)) \cup F("C11.nothingNew", C11nothingNew(pre, ld))
 
